@@ -19,7 +19,8 @@ ID = "C17"
 LEVEL = "exploration"
 RULE = ("1-6 input files written by write_rtf from the universal document strategy (single / multi-page tables, "
         "multi-section, figure documents; portrait / landscape / custom paper; with page header / footer; coloured; "
-        "cell texts incl. the dictionary word 'fcharset'), in any order, possibly the same path twice; plus the "
+        "cell texts incl. the dictionary word 'fcharset'; inputs of 100-700 KB - listings of 300-1500 rows and figures with 40-300 KB payloads - "
+        "alone, first, last and between small ones), in any order, possibly the same path twice; plus the "
         "empty list, a list with one missing path at any position, and a pre-existing output file. Oracle: the "
         "assembled file has zero lexical / structural anomalies (C01's predicate: one balanced {\\rtf1 group, "
         "nothing after it, well-formed rows); its page list equals the concatenation of the inputs' page lists "
@@ -33,10 +34,37 @@ CFG = gen.Cfg(max_cols=4, max_rows=10, nrow_range=(2, 12), allow_group_by=False,
 GEOM = ("paperw", "paperh", "margl", "margr", "margt", "margb", "headery", "footery")
 
 
+def big_table(nrows, tag):
+    """A listing whose RTF is well above 64 KiB (a few hundred rows)."""
+    cols = [{"name": f"@N{j}", "dtype": "str", "values": [f"{tag}{i}c{j} listing text" for i in range(nrows)]} for j in range(3)]
+    return {"kind": "table", "page": {"nrow": 40}, "sections": [{"df": {"cols": cols}, "body": {}, "headers": "default"}], "title": {"text": ["@T0 " + tag]}}
+
+
+def big_figure(nbytes, tag):
+    """A figure document whose single picture payload is nbytes long (hex: twice that)."""
+    body = b"\x89PNG\r\n\x1a\n" + (13).to_bytes(4, "big") + b"IHDR" + (640).to_bytes(4, "big") + (480).to_bytes(4, "big") + bytes([8, 2, 0, 0, 0]) + bytes(4)
+    fill = hashlib.sha256(tag.encode()).digest()
+    data = (body + fill * (nbytes // len(fill) + 1))[:nbytes]
+    return {"kind": "figure", "page": {"nrow": 40}, "figure": {"files": [{"suffix": ".png", "stem": "big" + tag, "hex": data.hex(), "format": "png", "w": 640, "h": 480}]},
+            "title": {"text": ["@T0 " + tag]}}
+
+
+def enumerate_cases(tier):
+    """Inputs larger than any plausible read-buffer size: alone, first, last and in the middle of small ones."""
+    small = {"kind": "table", "page": {"nrow": 40}, "sections": [{"df": {"cols": [{"name": "@N0", "dtype": "str", "values": ["s0", "s1"]}]}, "body": {}, "headers": "default"}]}
+    bigs = [big_table(400, "a"), big_figure(48 * 1024, "b")] + ([big_table(1500, "c"), big_figure(300 * 1024, "d")] if tier == "thorough" else [])
+    for big in bigs:
+        for docs in ([big], [big, small], [small, big], [small, big, small], [big, big]):
+            yield {"docs": docs, "order": list(range(len(docs))), "mode": "normal", "missing_at": 0}
+
+
 @st.composite
 def _case(draw):
     n = draw(st.integers(1, 6))
     docs = [draw(gen.universal(CFG, weights=(5, 2, 3))) for _ in range(n)]
+    if draw(st.integers(0, 9)) < 2:      # one input well above 64 KiB
+        k = draw(st.integers(0, n - 1))
+        docs[k] = big_table(draw(st.integers(300, 600)), f"x{k}") if draw(st.booleans()) else big_figure(draw(st.integers(40000, 90000)), f"y{k}")
     if draw(st.integers(0, 9)) < 3:      # a body cell that says 'fcharset'
         for d in docs:
             if d["kind"] == "table" and d["sections"][0]["df"]["cols"] and R.nrows(d["sections"][0]) > 0:
